@@ -507,7 +507,7 @@ def rule_model_rendering(prog, rep):
 
     from ..guards import Flow, Obj
     from ..objinterp import ObjRunner
-    from .shared import pqr_model, written_file
+    from .shared import FileSystemModel, pqr_model, written_file
     r = rep.rule("R8", "model runs: the rendered APBS input names the PQR file just written and states the grid computed for it", floor=6)
     where = "pdb2pqr/io.py (dump_apbs) / pdb2pqr/inputgen.py (Input, Elec)"
     small, _ = pqr_model(prog)
@@ -517,41 +517,9 @@ def rule_model_rendering(prog, rep):
     big, _ = pqr_model(prog, extra)
 
     def file_hook(files):
-        def hook(run, interp, call, args, kw):
-            name = U(call.func)
-            if name in ("Path", "pathlib.Path") and len(args) == 1:
-                src = args[0]["__str__"] if isinstance(args[0], dict) else args[0]
-                if not isinstance(src, str):
-                    return NotImplemented
-                p_ = PurePosixPath(src)
-                return Obj({"__class__": "<path>", "__str__": src, "name": p_.name, "stem": p_.stem, "suffix": p_.suffix,
-                            "parent": Obj({"__class__": "<path>", "__str__": str(p_.parent), "name": p_.parent.name, "stem": p_.parent.stem,
-                                           "suffix": p_.parent.suffix})})
-            if name == "str" and len(args) == 1 and isinstance(args[0], dict) and args[0].get("__class__") == "<path>":
-                return args[0]["__str__"]
-            if name == "open" and args:
-                path = args[0]["__str__"] if isinstance(args[0], dict) else args[0]
-                mode = args[1] if len(args) > 1 else kw.get("mode", "r")
-                if "w" in mode:
-                    files[path] = []
-                elif path not in files:
-                    raise Flow("raise", f"FileNotFoundError({path!r})", call)
-                return Obj({"__class__": "<file>", "path": path, "mode": mode})
-            if isinstance(call.func, ast.Attribute) and call.func.attr in ("readlines", "read", "write", "close", "readline"):
-                recv = interp.ev(call.func.value)
-                if isinstance(recv, dict) and recv.get("__class__") == "<file>":
-                    if call.func.attr == "write":
-                        files[recv["path"]].append(args[0])
-                        return None
-                    if call.func.attr == "close":
-                        return None
-                    text = "".join(files[recv["path"]])
-                    if call.func.attr == "read":
-                        return text
-                    if call.func.attr == "readlines":
-                        return text.splitlines(keepends=True)
-            return NotImplemented
-        return hook
+        fs = FileSystemModel({k: "".join(v) for k, v in files.items()})
+        files["__fs__"] = fs
+        return fs.hook
 
     one = [small[0], small[1]] + list(small[-2:])
     for label, model in (("one-atom", one), ("large", big)):
@@ -574,7 +542,7 @@ def rule_model_rendering(prog, rep):
                 r.bad(f"{label}|dump_apbs|{pqrpath}", f"dump_apbs stops with {fl.value} on the {label} model written as {pqrpath}", where)
                 failed = True
                 continue
-            text = "".join(files.get("out/model.in", []))
+            text = files["__fs__"].files.get("out/model.in", "")
             _judge_input(r, f"{label}|dump_apbs|{pqrpath}", text, PurePosixPath(pqrpath).name, sizes, atoms, where)
         if failed:
             continue
